@@ -80,5 +80,12 @@ func LongInputs(variants []string) []*Case {
 		menu := []string{"", "ab", strings.Repeat("a", 65534), strings.Repeat("a", 65535), strings.Repeat("a", 65533) + "b", strings.Repeat("a", 70) + "c"}
 		out = append(out, &Case{Family: "LONG", G: g, Extra: menu, Depth: 2, Sizes: []int{-1, 1}, Us: []string{"uint16", "uint32", "uint"}, Variants: variants, Mode: spec.ModeHistory})
 	}
+	// lengths around 65536 and beyond need a 32-bit index
+	for _, g := range gs[:2] {
+		g2 := g.Clone()
+		g2.ID += "/32"
+		menu := []string{"a", strings.Repeat("a", 65535), strings.Repeat("a", 65536), strings.Repeat("a", 65537), strings.Repeat("a", 100000), strings.Repeat("a", 65536) + "c"}
+		out = append(out, &Case{Family: "LONG", G: g2, Extra: menu, Depth: 2, Sizes: []int{-1}, Us: []string{"uint32", "uint64"}, Variants: variants, Mode: spec.ModeHistory})
+	}
 	return out
 }
